@@ -482,8 +482,8 @@ def c19(ctx):
     if ctx.tier == "quick":
         lines = lines[:9000]
     tmo = tiers(ctx, 5.0, 30.0)
-    ctx.stream("extremes-release", lines, nontrivial=lambda t: True, chunk_timeout=900, per_line_timeout=tmo)
-    ctx.stream("extremes-dbg", lines, profile="dbg", nontrivial=lambda t: True, chunk_timeout=1800, per_line_timeout=tmo * 2)
+    ctx.stream("extremes-release", lines, spec_mode="total", nontrivial=lambda t: True, chunk_timeout=900, per_line_timeout=tmo)
+    ctx.stream("extremes-dbg", lines, spec_mode="total", profile="dbg", nontrivial=lambda t: True, chunk_timeout=1800, per_line_timeout=tmo * 2)
     ctx.assumptions.append("stack exhaustion, allocation failure and wall-clock time are runtime behaviour the model cannot exhibit: they are observed by the supervised harness (ABORT/HANG attributed to single lines); the fuel/termination theorems cover the logic")
     return done(ctx)
 
